@@ -24,7 +24,7 @@ while i < len(args):
         k, v = args[i+1].split("="); extra_props.setdefault(k, []).append(v); i += 2
     else: i += 1
 
-muts = sorted(d for d in glob.glob(VERIF + "/seeded/C*-m*") if os.path.exists(d + "/patch.diff"))
+muts = sorted(d for d in glob.glob(VERIF + "/seeded/C*-*") if os.path.exists(d + "/patch.diff"))
 if only:
     muts = [m for m in muts if os.path.basename(m) in only]
 head = subprocess.check_output(["git", "-C", "/repo", "rev-parse", "HEAD"], text=True).strip()
